@@ -203,6 +203,7 @@ def wrapper_unit(first_outcome: str):
             tag = "/".join(s.tags)
             # thread end
             th.set_ghost(s, "loc", me, z3.IntVal(L_DONE))
+            th.set_ghost(s, "fcan", me, z3.BoolVal(isinstance(v, Exit) and v.val.cls == "CancelledError"))
             th.check_point(s, "thread-end")
             rel = [e for e in tr if e[0] == "release" and e[1] == "tok"]
             ip.require(s, "count:pool-slot-released-exactly-once", z3.BoolVal(len(rel) == 1), ("C02", "C12"))
@@ -289,7 +290,7 @@ def start_task_post(th: PoolTheory, seg, new, me, a, result, ecb_ref, ccb_ref):
     cl = []
     cl.append(("id-is-next", z3.And(r == o.n, n.n == o.n + 1), ("C11",)))
     cl.append(("registered-running", z3.And(n.R.has(r), t != NONE, sel(o.kind, t) == K_NONE, sel(n.kind, t) == K_WRAPPER, sel(n.loc, t) == L_NS,
-                                            z3.Not(sel(n.creq, t)), z3.Not(sel(n.cever, t)), sel(n.tid, t) == r, sel(n.wt, r) == t), ("C11", "C03")))
+                                            z3.Not(sel(n.creq, t)), z3.Not(sel(n.cever, t)), z3.Not(sel(n.fcan, t)), sel(n.tid, t) == r, sel(n.wt, r) == t), ("C11", "C03")))
     cl.append(("wrapper-gets-exactly-the-passed-objects", z3.And(sel(n.aw, t) == a["awaitable"].t, sel(n.ecb, t) == ecb_ref, sel(n.ccb, t) == ccb_ref), ("C04", "C05", "C03")))
     cl.append(("task-name-shows-id", sel(n.tname, t) == sym.str_concat([pool_str(new), "_Task-", StrV(sym.itos(r))]).t, ("C11",)))
     cl.append(("token-handed-to-wrapper", z3.And(sel(n.tok, t), z3.Not(sel(n.tok, me)), n.sem.out == o.sem.out + 1, sel(n.mtok, t) == sel(o.mtok, me), z3.Not(sel(n.mtok, me)),
@@ -304,16 +305,16 @@ def start_task_post(th: PoolTheory, seg, new, me, a, result, ecb_ref, ccb_ref):
     cl.append(("other-threads-ghost-unchanged", z3.ForAll([u], z3.Implies(z3.And(u != t, u != me), z3.And(
         sel(n.kind, u) == sel(o.kind, u), sel(n.loc, u) == sel(o.loc, u), sel(n.creq, u) == sel(o.creq, u), sel(n.cever, u) == sel(o.cever, u),
         sel(n.tok, u) == sel(o.tok, u), sel(n.mtok, u) == sel(o.mtok, u), sel(n.tid, u) == sel(o.tid, u), sel(n.grp, u) == sel(o.grp, u),
-        sel(n.aw, u) == sel(o.aw, u), sel(n.ecb, u) == sel(o.ecb, u), sel(n.ccb, u) == sel(o.ccb, u), sel(n.tname, u) == sel(o.tname, u), sel(n.msem, u) == sel(o.msem, u)))), ("C11",)))
+        sel(n.aw, u) == sel(o.aw, u), sel(n.ecb, u) == sel(o.ecb, u), sel(n.ccb, u) == sel(o.ccb, u), sel(n.tname, u) == sel(o.tname, u), sel(n.msem, u) == sel(o.msem, u), sel(n.fcan, u) == sel(o.fcan, u)))), ("C11",)))
     cl.append(("my-ghost", z3.And(sel(n.kind, me) == sel(o.kind, me), sel(n.loc, me) == sel(o.loc, me), sel(n.grp, me) == sel(o.grp, me), z3.Not(sel(n.creq, me)),
-                                  sel(n.cever, me) == sel(o.cever, me), sel(n.msem, me) == sel(o.msem, me)), ("C07",)))
+                                  sel(n.cever, me) == sel(o.cever, me), sel(n.msem, me) == sel(o.msem, me), sel(n.fcan, me) == sel(o.fcan, me)), ("C07",)))
     cl.append(("wt-others", z3.ForAll([i], z3.Implies(i != r, sel(n.wt, i) == sel(o.wt, i))), ("C11",)))
     cl.append(("semaphore-otherwise-consistent", z3.And(n.sem.v.inf == o.sem.v.inf, n.sem.g >= 0, n.sem.P >= 0), ("C01",)))
     return cl
 
 
 START_TASK_MODIFIES = ("_num_started", "_tasks_running", "_task_groups", "_enough_room", "kind", "loc", "creq", "cever", "tok", "mtok", "tid", "grp",
-                       "aw", "ecb", "ccb", "tname", "wt", "msem")
+                       "aw", "ecb", "ccb", "tname", "wt", "msem", "fcan")
 
 
 def spawner_start_args(st: St, th: PoolTheory):
